@@ -74,6 +74,7 @@ func (p *FullIntraRequest) Unmarshal(rawPacket []byte) error {
 
 	p.SenderSSRC = binary.BigEndian.Uint32(rawPacket[headerLength:])
 	p.MediaSSRC = binary.BigEndian.Uint32(rawPacket[headerLength+ssrcLength:])
+	p.FIR = nil
 	for i := headerLength + firOffset; i < (headerLength + 4*int(h.Length)); i += 8 {
 		p.FIR = append(p.FIR, FIREntry{
 			binary.BigEndian.Uint32(rawPacket[i:]),
